@@ -214,6 +214,14 @@ type BBTail struct {
 
 type Empty struct{}
 
+// Member: cycles that run through a shared pointer to a slice, a slice and a map
+type Member struct {
+	Name   string
+	Family *[]*Member
+	Peers  []*Member
+	ByName map[string]*Member
+}
+
 type Nested struct {
 	O  Outer
 	PO *Outer
@@ -231,7 +239,7 @@ func init() {
 		MyInt(0), MyI8(0), MyU16(0), MyStr(""), MyF64(0), MyBool(false), MyBytes(nil), MyInts(nil),
 		Scalars{}, PScalars{}, PU32{}, Named{}, Bigs{}, Times{}, Conts{}, Node{}, Node2{}, Tree{}, Graph{},
 		Tagged{}, Inner{}, Outer{}, Shared{}, One{}, OneS{}, OneP{}, Cx{}, Deep{}, Lst{}, Strs{}, BBTail{},
-		Empty{}, Nested{},
+		Empty{}, Nested{}, Member{},
 	} {
 		reg(v)
 	}
